@@ -2,6 +2,7 @@ package props
 
 import (
 	"fmt"
+	"runtime"
 	"sort"
 	"strings"
 	"sync"
@@ -25,7 +26,7 @@ func init() {
 		Workers:     4,
 		Race:        true,
 		CaseTimeout: 200e9,
-		Rule: "real parallel executions under the Go race detector: 2-8 goroutines issue operations and transactions (values tagged goroutine x counter) on ONE datatype of each type while a background goroutine syncs it with the real service and, in half of the rounds, a second client's operations arrive; yields / sleeps are injected at the BeginTransaction / unlock hook points with seeded probabilities. Monitors: conservation (counter = sum of the deltas of calls that returned success, plus the remote deltas; for the other types the final state equals the replay of the stored log, which holds exactly one operation per successful call); exactly-once and identifier order (the client's stored operations carry seq 1..n without gap or repeat and strictly increasing clocks); transaction contiguity (each TRANSACTION header is followed by exactly NumOfOps-1 operations, all carrying tags of the issuing goroutine); isolation inside a transaction body (a counter read-modify-read sequence sees only its own writes); linearizability of return values in rounds without a second client (porcupine: counter IncreaseBy -> new value; map Put/Remove -> previous value, per key); no deadlock / panic (watchdog, worker crash); race-detector reports attributed to orda code, keyed by the unordered pair of innermost orda functions; " +
+		Rule: "real parallel executions under the Go race detector: 2-8 goroutines issue operations and transactions (values tagged goroutine x counter) on ONE datatype of each type while a background goroutine syncs it with the real service and, in half of the rounds, a second client's operations arrive; yields / sleeps are injected at the BeginTransaction / unlock hook points with seeded probabilities; a pack observer builds push packs in a tight loop meanwhile. Monitors: every pack the observer or a sync builds holds whole transaction units only; conservation (counter = sum of the deltas of calls that returned success, plus the remote deltas; for the other types the final state equals the replay of the stored log, which holds exactly one operation per successful call); exactly-once and identifier order (the client's stored operations carry seq 1..n without gap or repeat and strictly increasing clocks); transaction contiguity (each TRANSACTION header is followed by exactly NumOfOps-1 operations, all carrying tags of the issuing goroutine); isolation inside a transaction body (a counter read-modify-read sequence sees only its own writes); linearizability of return values in rounds without a second client (porcupine: counter IncreaseBy -> new value; map Put/Remove -> previous value, per key); no deadlock / panic (watchdog, worker crash); race-detector reports attributed to orda code, keyed by the unordered pair of innermost orda functions; " +
 			"non-trivial = >= 3 goroutines completed >= 5 calls each while >= 1 background sync applied a response; distinct = hash of the emitted (goroutine-tag) sequence, i.e. the interleaving actually observed",
 		Assumptions: []string{
 			"the application goroutines use the public mutators and transactions; getters are called only inside transaction bodies or after the goroutines have joined",
@@ -177,6 +178,9 @@ func runC20(c *core.Case) *core.Result {
 					delta := int32(rr.Intn(9) - 4)
 					if inTx {
 						k := 1 + rr.Intn(3)
+						if rr.Intn(4) == 0 {
+							k = 12 + rr.Intn(20) // a long unit: its hand-over to the pending buffer takes a while
+						}
 						err := t.Transaction("t", func(tx orda.CounterInTx) error {
 							for j := 0; j < k; j++ {
 								before := tx.Get()
@@ -308,6 +312,33 @@ func runC20(c *core.Case) *core.Result {
 			}
 		}(gi)
 	}
+	// pack observer: whatever moment a sync picks to build its pack, the pack holds whole
+	// transaction units only (a header is followed by all the operations it announces)
+	var packsObserved int64
+	bgObs := make(chan struct{})
+	go func() {
+		defer close(bgObs)
+		for {
+			select {
+			case <-done:
+				return
+			default:
+			}
+			ops := d.W.CreatePushPullPack().Operations
+			for i, o := range ops {
+				if o.OpType != model.TypeOfOperation_TRANSACTION {
+					continue
+				}
+				if hd, err := crdt.Decode(o); err == nil && hd.N > int64(len(ops)-i) {
+					fail("pack:truncated-unit", "a pack built while application goroutines run holds a transaction header (seq %d) announcing %d operations with only %d operations after it: a sync at this moment pushes an incomplete unit", o.ID.GetSeq(), hd.N, len(ops)-i)
+					return
+				}
+			}
+			atomic.AddInt64(&packsObserved, 1)
+			runtime.Gosched()
+		}
+	}()
+	defer func() { <-bgObs; c.Count("packs_observed_during_concurrent_use", atomic.LoadInt64(&packsObserved)) }()
 	// background sync loop (single in flight) and the second client
 	var syncs, applied int64
 	var bg sync.WaitGroup
